@@ -233,6 +233,11 @@ func (m *Module) start(reports chan *report) {
 				fmt.Sprintf("Starting module %s failed", m.Name),
 				fmt.Sprintf("Failed to start module: %s", err.Error()),
 			)
+			// A module that failed to start is offline (again), so that the
+			// modules it depends on can still be stopped.
+			m.Lock()
+			m.status = StatusOffline
+			m.Unlock()
 		} else {
 			m.Lock()
 			m.status = StatusOnline
